@@ -7,8 +7,8 @@ use std::collections::{BTreeMap, BTreeSet};
 
 pub struct C09;
 
-const PART: [&str; 4] = ["a", "b", "c", "d"];
-const SINGLE_OUT: [&str; 4] = ["1", "2", "3", "4"];
+const PART: [&str; 5] = ["a", "b", "c", "d", "g"];
+const SINGLE_OUT: [&str; 5] = ["1", "2", "3", "4", "5"];
 const CHORD_OUT: [&str; 8] = ["m", "n", "o", "p", "q", "r", "s", "t"];
 
 #[derive(Clone, Debug, PartialEq, Eq, Hash)]
@@ -24,7 +24,12 @@ pub struct Chord {
 #[derive(Clone, Debug, PartialEq, Eq, Hash)]
 pub struct CCase {
     pub v2: bool,
+    /// v1: the group's timeout; v2: the timeout of chords without an entry in `timeouts`
     pub timeout: u16,
+    /// v2: per-chord timeouts
+    pub timeouts: Vec<u16>,
+    /// release the keys 2 ms after the last press (before any timeout) instead of after it
+    pub early_release: bool,
     pub chords: Vec<Chord>,
     /// which chord is exercised
     pub which: u16,
@@ -39,41 +44,51 @@ pub struct CCase {
 }
 
 fn mask_keys(m: u8) -> Vec<usize> {
-    (0..4).filter(|i| m & (1 << i) != 0).collect()
+    (0..5).filter(|i| m & (1 << i) != 0).collect()
+}
+fn tmo(c: &CCase, i: usize) -> u64 {
+    if c.v2 {
+        c.timeouts.get(i).copied().unwrap_or(c.timeout) as u64
+    } else {
+        c.timeout as u64
+    }
+}
+fn max_tmo(c: &CCase) -> u64 {
+    (0..c.chords.len()).map(|i| tmo(c, i)).max().unwrap_or(c.timeout as u64)
 }
 fn cfg_text(c: &CCase) -> String {
     let mut s = String::new();
     if c.v2 {
-        s.push_str("(defcfg log-layer-changes no concurrent-tap-hold yes)\n(defsrc a b c d e f)\n");
-        s.push_str("(deflayer l0 1 2 3 4 w (layer-while-held l1))\n(deflayer l1 1 2 3 4 w XX)\n(defchordsv2");
+        s.push_str("(defcfg log-layer-changes no concurrent-tap-hold yes)\n(defsrc a b c d e f g)\n");
+        s.push_str("(deflayer l0 1 2 3 4 w (layer-while-held l1) 5)\n(deflayer l1 1 2 3 4 w XX 5)\n(defchordsv2");
         for (i, ch) in c.chords.iter().enumerate() {
             s.push_str(&format!(
                 "\n  ({}) {} {} {} ({})",
                 mask_keys(ch.keys).iter().map(|k| PART[*k]).collect::<Vec<_>>().join(" "),
                 CHORD_OUT[i],
-                c.timeout,
+                tmo(c, i),
                 if ch.first_release { "first-release" } else { "all-released" },
                 if ch.disabled_l1 { "l1" } else { "" }
             ));
         }
         s.push_str(")\n");
     } else {
-        s.push_str("(defcfg log-layer-changes no)\n(defsrc a b c d e f)\n");
-        s.push_str(&format!("(defchords g {}", c.timeout));
-        for i in 0..4 {
+        s.push_str("(defcfg log-layer-changes no)\n(defsrc a b c d e f g)\n");
+        s.push_str(&format!("(defchords grp {}", c.timeout));
+        for i in 0..5 {
             s.push_str(&format!(" ({}) {}", PART[i], SINGLE_OUT[i]));
         }
         for (i, ch) in c.chords.iter().enumerate() {
             s.push_str(&format!(" ({}) {}", mask_keys(ch.keys).iter().map(|k| PART[*k]).collect::<Vec<_>>().join(" "), CHORD_OUT[i]));
         }
-        s.push_str(")\n(deflayer l0 (chord g a) (chord g b) (chord g c) (chord g d) w XX)\n");
+        s.push_str(")\n(deflayer l0 (chord grp a) (chord grp b) (chord grp c) (chord grp d) w XX (chord grp g))\n");
     }
     s
 }
 
 impl Case for CCase {
     fn to_json(&self) -> Value {
-        json!({"config": cfg_text(self), "v2": self.v2, "timeout": self.timeout,
+        json!({"config": cfg_text(self), "v2": self.v2, "timeout": self.timeout, "timeouts": self.timeouts, "early_release": self.early_release,
             "chords": self.chords.iter().map(|c| json!([c.keys, c.first_release, c.disabled_l1])).collect::<Vec<_>>(),
             "which": self.which, "span_class": self.span_class, "release_perm": self.release_perm, "scenario": self.scenario})
     }
@@ -81,6 +96,8 @@ impl Case for CCase {
         Some(CCase {
             v2: v["v2"].as_bool()?,
             timeout: v["timeout"].as_u64()? as u16,
+            timeouts: v["timeouts"].as_array().map(|a| a.iter().filter_map(|x| x.as_u64().map(|y| y as u16)).collect()).unwrap_or_default(),
+            early_release: v["early_release"].as_bool().unwrap_or(false),
             chords: v["chords"]
                 .as_array()?
                 .iter()
@@ -152,17 +169,19 @@ fn run(c: &CCase, keys: &[usize], order: &[usize], gaps: &[u64], rel_order: &[us
         sim.tick_n(2);
         sim.release(code_of("e"));
     }
-    sim.tick_n(c.timeout as u64 + 20);
+    sim.tick_n(if c.early_release { 2 } else { max_tmo(c) + 20 });
     let mut release_times = vec![];
     for ri in rel_order {
         release_times.push(sim.ticks);
         sim.release(code_of(PART[keys[*ri]]));
-        sim.tick_n(3);
+        // spacing between the releases: short, or long enough to tell "with the first release"
+        // from "with the last release"
+        sim.tick_n(if c.release_perm % 2 == 1 { 25 } else { 3 });
     }
     if hold_layer {
         sim.release(code_of("f"));
     }
-    sim.tick_n(c.timeout as u64 + 40);
+    sim.tick_n(max_tmo(c) + 40);
     Ok(Run {
         idle: sim.k.is_idle(),
         outs: sim.outs.clone(),
@@ -196,7 +215,7 @@ fn judge_case(c: &CCase) -> Verdict {
     let ch = &c.chords[wi];
     let keys = mask_keys(ch.keys);
     let k = keys.len();
-    let t = c.timeout as u64;
+    let t = tmo(c, wi);
     let y = code_of(CHORD_OUT[wi]);
     let all_chord_outs: Vec<u16> = (0..c.chords.len()).map(|i| code_of(CHORD_OUT[i])).collect();
     let single_outs: Vec<u16> = SINGLE_OUT.iter().map(|n| code_of(n)).collect();
@@ -226,6 +245,24 @@ fn judge_case(c: &CCase) -> Verdict {
         }
     };
     let span: u64 = gaps.iter().sum();
+    // The chord is owed when, at every moment before its last key arrives, the time since the
+    // first press is below the timeout of every chord that is still possible (contains all keys
+    // pressed so far): a shorter sub-chord or sibling legitimately ends the wait earlier.
+    let owed = |order: &[usize]| -> bool {
+        let mut elapsed = 0u64;
+        let mut mask = 0u8;
+        for (j, oi) in order.iter().enumerate() {
+            if j > 0 {
+                elapsed += gaps[j - 1];
+                let m = c.chords.iter().enumerate().filter(|(_, o)| o.keys & mask == mask).map(|(i, _)| tmo(c, i)).min().unwrap_or(t);
+                if elapsed + 2 > m {
+                    return false;
+                }
+            }
+            mask |= 1 << keys[*oi];
+        }
+        true
+    };
     match c.scenario % 4 {
         2 => {
             // a single participant alone is not swallowed: its own action, exactly once
@@ -275,7 +312,8 @@ fn judge_case(c: &CCase) -> Verdict {
     let superset_exists = c.chords.iter().enumerate().any(|(i, o)| i != wi && o.keys & ch.keys == ch.keys);
     let _ = superset_exists;
     let d = downs(&base);
-    if span + 2 <= t {
+    let base_owed = owed(&sorted);
+    if base_owed {
         let n_y = d.iter().filter(|x| **x == y).count();
         if n_y != 1 {
             return Verdict::failed("chord:not-fired-exactly-once", format!("{}\nall keys were down within {span} ms (timeout {t}): the chord's action appears {n_y} times", describe("pressed together", &base)));
@@ -301,11 +339,19 @@ fn judge_case(c: &CCase) -> Verdict {
         match up_t {
             None => return Verdict::failed("chord:never-released", describe("pressed together", &base)),
             Some(u) => {
-                if u > last_rel + 4 {
+                // latency: queued events are handled one per tick, and a release is held back
+                // until rapid-event-delay (5 ms) after the press before it
+                let lat = if c.early_release { 8 + 2 * k as u64 } else { 4 };
+                let down_t = base.outs.iter().find(|o| o.ev == OutEv::Down(y)).map(|o| o.t).unwrap_or(0);
+                if u > last_rel.max(down_t) + lat {
                     return Verdict::failed("chord:released-later-than-all-participants", format!("{}\nlast participant released at {last_rel} ms, chord action released at {u} ms", describe("pressed together", &base)));
                 }
+                if !c.v2 && !extra && u < last_rel {
+                    // v1, documented: a single-key action stays until all keys of the chord are released
+                    return Verdict::failed("chord:v1-released-before-all-participants", format!("{}\nlast participant released at {last_rel} ms, chord action already released at {u} ms", describe("pressed together", &base)));
+                }
                 if c.v2 && !extra {
-                    if ch.first_release && !(u >= first_rel && u <= first_rel + 4) {
+                    if ch.first_release && !(u >= first_rel && u <= first_rel.max(down_t) + lat) {
                         return Verdict::failed("chord:first-release-rule", format!("{}\nfirst participant released at {first_rel} ms, chord action released at {u} ms", describe("first-release", &base)));
                     }
                     if !ch.first_release && u < last_rel {
@@ -315,6 +361,12 @@ fn judge_case(c: &CCase) -> Verdict {
             }
         }
         v.classes.push("within-timeout");
+        if c.early_release {
+            v.classes.push("released-before-timeout");
+        }
+        if c.v2 && c.chords.iter().enumerate().any(|(i, o)| i != wi && o.keys & ch.keys != 0 && tmo(c, i) < t && span + 2 > tmo(c, i)) {
+            v.classes.push("outlasts-shorter-overlapping-chord");
+        }
     } else if span >= t + 2 {
         // too slow for one chord: it must not fire as a whole, and no key may be swallowed:
         // every participant is accounted for by some action (its own or a defined sub-chord)
@@ -360,7 +412,7 @@ fn judge_case(c: &CCase) -> Verdict {
         }
         // only key sets that are entries of the table are order-independent by statement; when the
         // span is beyond the timeout the decomposition legitimately depends on which key came first
-        if span + 2 <= t {
+        if base_owed && owed(&order) {
             let same = if c.v2 {
                 tr == base_tr
             } else {
@@ -415,7 +467,7 @@ impl TypedProp for C09 {
             },
             exhaustive: false,
             distinct_by_construction: false,
-            required_classes: vec!["v1", "v2", "within-timeout", "beyond-timeout", "permuted", "with-following-key", "overlapping-table", "single-participant", "disabled-layer"],
+            required_classes: vec!["v1", "v2", "released-before-timeout", "outlasts-shorter-overlapping-chord", "within-timeout", "beyond-timeout", "permuted", "with-following-key", "overlapping-table", "single-participant", "disabled-layer"],
             hang_secs: 60,
         }
     }
@@ -426,13 +478,15 @@ impl TypedProp for C09 {
         (
             any::<bool>(),
             prop::sample::select(vec![8u16, 30]),
-            prop::collection::vec((3u8..16, any::<bool>(), prop::bool::weighted(0.25)), 1..7),
+            prop::collection::vec((3u8..32, any::<bool>(), prop::bool::weighted(0.25)), 1..7),
             any::<u16>(),
             0u8..3,
             any::<u16>(),
             0u8..4,
+            prop_oneof![2 => Just(vec![]), 3 => prop::collection::vec(prop::sample::select(vec![8u16, 30, 60]), 6..=6)],
+            prop::bool::weighted(0.3),
         )
-            .prop_map(|(v2, timeout, raw, which, span_class, release_perm, scenario)| {
+            .prop_map(|(v2, timeout, raw, which, span_class, release_perm, scenario, timeouts, early_release)| {
                 let mut chords: Vec<Chord> = vec![];
                 for (m, fr, dis) in raw {
                     if m.count_ones() < 2 || chords.iter().any(|c| c.keys == m) {
@@ -454,6 +508,8 @@ impl TypedProp for C09 {
                 CCase {
                     v2,
                     timeout,
+                    timeouts: if v2 { timeouts } else { vec![] },
+                    early_release,
                     chords,
                     which,
                     span_class,
